@@ -136,7 +136,10 @@ static std::vector<LDesc> enumLists(int maxLen, int nvals) {
   return out;
 }
 static const double TVALS[4][2] = {{0, 0.5}, {0.5, 2}, {-1, 2}, {-1, 0.5}};   // admissible values per name (targets)
-static const double SVALS[] = {-1, 0.5, 2, 0};                                  // sources carry no constraint (quick tier uses the first three)
+static const double SVALS[] = {-1, 0.5, 2, 0};
+// seeded C02-11: source values 4e-13 away from an admissible target value (zero precision: such an update is a change like any other)
+static const double SVNEAR[] = {0.5 + 4e-13, 2 - 4e-13, -1 + 4e-13, 0.5};
+static thread_local const double* SV = SVALS;                                  // sources carry no constraint (quick tier uses the first three)
 static const char* E2OPS[] = {"setParametersValues", "matchParametersValues", "setAllParametersValues", "testParametersValues", "owner.setParametersValues", "owner.matchParametersValues", "owner.setAllParametersValues",
                               "includeParameters", "shareParameters", "addParameters", "setParameters", "matchParameters", "getCommonParametersWith"};
 static const int NE2 = 13;
@@ -144,7 +147,7 @@ static const int NE2 = 13;
 static void runE2(const LDesc& td, const LDesc& sd, int op, vf::Case& c) {
   Model M; ParameterList T, S;
   for (size_t i = 0; i < td.names.size(); ++i) { double v = TVALS[td.names[i]][td.vals[i]]; M.add(0, td.names[i], v, td.names[i] != 2); T.addParameter(Parameter(NAMES[td.names[i]], v, consOf(td.names[i]))); }
-  for (size_t i = 0; i < sd.names.size(); ++i) { double v = SVALS[sd.vals[i]]; M.add(1, sd.names[i], v, false); S.addParameter(Parameter(NAMES[sd.names[i]], v)); }
+  for (size_t i = 0; i < sd.names.size(); ++i) { double v = SV[sd.vals[i]]; M.add(1, sd.names[i], v, false); S.addParameter(Parameter(NAMES[sd.names[i]], v)); }
   // constrained flag of 'c' entries: consOf(2)==nullptr -> unconstrained in both
   const ParameterList* X[2] = {&T, &S};
   std::string pre = realStr(X);
@@ -194,7 +197,7 @@ static void runE2(const LDesc& td, const LDesc& sd, int op, vf::Case& c) {
     c.fail(opn + (atomicOp && want != NONE ? "|state-changed-although-raised" : "|state-differs-from-model"), ctx + "\n   real  " + post + "\n   model " + mpost);
   }
   uniqueNames(T, c, ctx); uniqueNames(S, c, ctx);
-  { const ParameterList* Y[1] = {&S}; std::string sNow = realStr(Y, 1); ParameterList S0; for (size_t i = 0; i < sd.names.size(); ++i) S0.addParameter(Parameter(NAMES[sd.names[i]], SVALS[sd.vals[i]])); const ParameterList* Z[1] = {&S0};
+  { const ParameterList* Y[1] = {&S}; std::string sNow = realStr(Y, 1); ParameterList S0; for (size_t i = 0; i < sd.names.size(); ++i) S0.addParameter(Parameter(NAMES[sd.names[i]], SV[sd.vals[i]])); const ParameterList* Z[1] = {&S0};
     if (sNow != realStr(Z, 1)) c.fail(opn + "|source-list-modified", ctx + " -> " + post); }
 }
 
@@ -304,9 +307,20 @@ int main(int argc, char** argv) {
   uint64_t nT = TL.size(), nS = SL.size();
   R.space("bulk-ops:T<=" + str(tmax) + ":S<=" + str(smax) + ":v" + str(nsv), nT * nS * NE2, [=](uint64_t idx, vf::Case& c) {
     int op = (int)(idx % NE2); uint64_t q = idx / NE2; const LDesc& sd = SL[q % nS]; const LDesc& td = TL[q / nS];
+    SV = SVALS;
     runE2(td, sd, op, c);
     if (idx % 500009 == 11) { std::string s = std::string(E2OPS[op]) + " T={"; for (size_t i = 0; i < td.names.size(); ++i) s += std::string(NAMES[td.names[i]]) + "=" + num(TVALS[td.names[i]][td.vals[i]]) + " "; s += "} S={"; for (size_t i = 0; i < sd.names.size(); ++i) s += std::string(NAMES[sd.names[i]]) + "=" + num(SVALS[sd.vals[i]]) + " "; c.sample(s + "}"); }
   }, 5.0);
+  {
+    int smaxN = th ? 3 : 2, nsvN = th ? 4 : 3;
+    std::vector<LDesc> SN = enumLists(smaxN, nsvN); uint64_t nSN = SN.size();
+    R.space("bulk-ops-near-equal-values:T<=" + str(tmax) + ":S<=" + str(smaxN) + ":v" + str(nsvN), nT * nSN * NE2, [=](uint64_t idx, vf::Case& c) {
+      int op = (int)(idx % NE2); uint64_t q = idx / NE2; const LDesc& sd = SN[q % nSN]; const LDesc& td = TL[q / nSN];
+      SV = SVNEAR;
+      runE2(td, sd, op, c);
+      SV = SVALS;
+    }, 5.0);
+  }
   R.explore(std::string("list-histories:d") + (th ? "6" : "4"), th ? 6 : 4, (int)OPS().size(), [] { return std::unique_ptr<S2>(new S2()); });
   R.expectSeen("setParametersValues->ConstraintException"); R.expectSeen("matchParametersValues->ConstraintException"); R.expectSeen("setAllParametersValues->ConstraintException");
   R.expectSeen("setAllParametersValues->ParameterNotFoundException"); R.expectSeen("addParameters->ParameterException"); R.expectSeen("owner.setParametersValues->ConstraintException");
